@@ -1,0 +1,30 @@
+// Coverage counters for the verification harness in /verif.
+// Compiled only with `--cfg fpdec_verif`; never alters behaviour.
+
+use core::sync::atomic::{AtomicU64, Ordering};
+
+/// Number of counters.
+pub const N: usize = 40;
+
+#[allow(clippy::declare_interior_mutable_const)]
+const ZERO: AtomicU64 = AtomicU64::new(0);
+static COUNTERS: [AtomicU64; N] = [ZERO; N];
+
+/// Count one visit of branch `id`.
+#[inline]
+pub fn hit(id: usize) {
+    COUNTERS[id].fetch_add(1, Ordering::Relaxed);
+}
+
+/// Number of visits of branch `id` so far.
+#[must_use]
+pub fn get(id: usize) -> u64 {
+    COUNTERS[id].load(Ordering::Relaxed)
+}
+
+/// Reset all counters.
+pub fn reset() {
+    for c in &COUNTERS {
+        c.store(0, Ordering::Relaxed);
+    }
+}
